@@ -883,7 +883,8 @@ func (runInfo *runInfoStruct) invokeChanExpr(expr *ast.ChanExpr) {
 	}
 
 	var lhs reflect.Value
-	rhs := runInfo.rv
+	// the value to send is the one read before the channel operand is evaluated
+	rhs := detachValue(runInfo.rv)
 
 	if expr.LHS == nil {
 		// lhs is nil
